@@ -25,3 +25,13 @@ pub use crate::pam::*;
 
 #[cfg(test)]
 mod tests;
+
+/// verif-hooks (C43): public names for the crate-private `core` entry points, so that the
+/// external verification harness can drive them with a scripted `PamHandler`.
+#[cfg(all(feature = "verif-hooks", target_family = "unix"))]
+pub mod verif_hooks {
+    pub use crate::core::{
+        acct_mgmt, sm_authenticate, sm_authenticate_connected, sm_authenticate_fallback,
+        PamHandler, RequestOptions, CLIENT,
+    };
+}
